@@ -329,6 +329,8 @@ def hcm_step(o):
 
     def clause(label, pc, goal):
         clauses.setdefault(label, []).append(z3.Implies(z3.And(*pc) if pc else z3.BoolVal(True), goal if z3.is_expr(goal) else z3.BoolVal(bool(goal))))
+    def has(kw, obj):
+        return any(v is obj for v in kw.values())
     shapes = []
     for p in ps:
         if p.kind not in ('return', 'end'):
@@ -360,11 +362,12 @@ def hcm_step(o):
         clause('IR is raised by one exactly with Memory 3 (a i)', p.pc, ir2 == (ir + 1 if key == ('a_i',) else ir))
         clause('IZ drops by two exactly when a hysteresis is closed (c ii)', p.pc, iz2 == (iz - 2 if key[0] == 'c_ii' else iz))
         if key[0] == 'c_ii':
-            clause('c ii closes the hysteresis of the two topmost residuals', p.pc, kws[0].get('previous_point_0') is p0 and kws[0].get('previous_point_1') is p1)
+            # (by object identity, not by keyword name: renaming the handler's parameters must not alarm - found by a harmless-refactoring run)
+            clause('c ii closes the hysteresis of the two topmost residuals', p.pc, has(kws[0], p0) and has(kws[0], p1))
         if key[0] in ('a_i', 'a_ii'):
-            clause('a i / a ii continue from the topmost residual', p.pc, kws[0].get('previous_point') is p1)
+            clause('a i / a ii continue from the topmost residual', p.pc, has(kws[0], p1) and not has(kws[0], p0))
         if key[0] == 'c_i':
-            clause('c i hangs the new branch at the topmost residual', p.pc, kws[0].get('previous_point_1') is p1)
+            clause('c i hangs the new branch at the topmost residual', p.pc, has(kws[0], p1) and not has(kws[0], p0))
         if not cont:
             want_point = {'a_i': 'point<-a_i', 'a_ii': 'point<-a_ii', 'b': 'point<-b', 'c_i': 'point<-c_i', 'primary': 'point<-primary'}[key[-1]]
             want_rec = 'recording<-a_i' if key == ('a_i',) else ('recording<-c_ii' if key[0] == 'c_ii' else 'recording0')
